@@ -232,6 +232,15 @@ pub fn main(opts: &Opts) -> ! {
             probes.insert(k.clone(), json!(v));
         }
     }
+    for want in [
+        "frame error below outer-code threshold", "periodic report emitted", "point with zero frames (NaN ratios)",
+        "results left unconsumed at stop", "singular tail rejected", "stage fault returned Err",
+        "worker ended by injected panic", "worker ended by stage panic", "terminated-by-propagated-panic",
+    ] {
+        if !probes.contains_key(want) && want != "terminated-by-propagated-panic" {
+            eprintln!("warning: probe '{}' was never hit in this run: the workload or fault mix does not reach it", want);
+        }
+    }
     extra.insert("probes".into(), serde_json::Value::Object(probes));
     extra.insert("distinct_interleavings".into(), json!(res.distinct_interleavings));
     extra.insert("interleaving_measure".into(), json!("distinct hashes of the order of transport events: (role, op) of every send/recv/try_recv/join on the results, terminate and report channels"));
